@@ -326,6 +326,25 @@ for _p, _t in _EXTRA9.items():
     if _p in CLAIMS:
         t, n, te, r = CLAIMS[_p]
         CLAIMS[_p] = (t + _t, n, te, r)
+_EXTRA9B = {
+ "C01": " Second wave: (R-RELEASE-1) every exit of COMMIT after the first swap, and every exit of ROLLBACK, releases everything — genuine defect repaired.",
+ "C02": " Second wave: (R-IMP-1) every FileInfo field a loader reads is written back by ExportOptions or tested by the guard that makes a view updatable — genuine defect repaired (UPDATE through --json-query replaced the document by the selected part); (R-FIXW-1) given delimiter positions are counted against the fields before a fixed-length writer is built.",
+ "C03": " Second wave: (R-POOLSET-1) an index pool that is enumerated is a set — genuine defect repaired (USING (c1, c1) emitted the column twice).",
+ "C05": " Second wave: (R-TBLNAME-1) the reference name a statement writes into a header comes from FormatTableName — genuine defect repaired (a dotted temporary-table name changed its qualifier after the first INSERT); (R-POOLSET-1); REPLACE with two given rows of one existing key repaired (value-level, no rule).",
+ "C06": " Second wave: R-ERR-10 extended to the range of the target type — genuine defect repaired (INTEGER(1e19) = MinInt64); (R-ARITH-1) an integer +, −, * of two user values is preceded or followed by an overflow test — known finding K13 (wrap-around at the int64 bounds; falling back to float or raising an error is a product decision); DATETIME(-1.5) repaired (value-level).",
+ "C09": " Second wave: known finding K3 REPAIRED — data-changing statements lock the files they name first; R-LOCK-7 counts a lock-only pass; (R-LOCK-13) the files of a FROM clause are locked before LoadView evaluates its members; (R-LOCK-14) the wait loop never gives up with ContextDone — genuine defect repaired (--wait-timeout 0).",
+ "C11": " Second wave: (R-RELEASE-1/2) the release is total; (R-RELEASE-3) a descriptor that was closed is forgotten, so a failed release can be repeated — genuine defects repaired.",
+ "C13": " Second wave: R-PAR-1's partition test demands a one-to-one image of the task index; R-LKS-1 extended to the object behind a pointer field of a mutex-carrying struct — two genuine defects repaired (SOURCE / CREATE TABLE in a function called from a parallel query used the file container without its mutex), known finding K11 (Transaction.Flags is read without the mutex its writers hold); (R-GOVAR-1) a variable shared with a go literal outside lib/query is synchronised — repaired; (R-PAR-25) a sent buffer is not recycled by the sender.",
+ "C12": " Second wave: (R-PAR-24) no work stealing under worker-ordered results; (R-PAR-25) ownership transfer on send.",
+ "C14": " Second wave: (R-ONCE-1) two call sites that hand the same syntax-tree path to Evaluate do not lie on one path — genuine defect repaired (a table function argument was evaluated twice by loadView); known finding K12 (UPDATE / DELETE evaluate it again).",
+ "C16": " Second wave: known finding K11 (R-LKS-1).",
+ "C19": " Second wave: R-ERR-10 (range), R-LKS-1 (the unsynchronised file-container map is a fatal error), R-ERR-7 second key for LPAD / RPAD (K1).",
+ "C20": " Second wave: (R-RELEASE-1/2/3) a failing release no longer leaves the table cache behind COMMIT / ROLLBACK — genuine defect repaired.",
+}
+for _p, _t in _EXTRA9B.items():
+    if _p in CLAIMS:
+        t, n, te, r = CLAIMS[_p]
+        CLAIMS[_p] = (t + _t, n, te, r)
 # Substrate rules (rules/zz_substrate.go): run with every property whose observable behaviour they protect.
 _SUBSTRATE = " Substrate (run with every value-level property, DESIGN §2.11): R-POOL-1/2/3/5 (no value object is returned to its pool while something still refers to it, none twice), R-PAR-1 (no unsynchronised conflicting access between worker goroutines), R-ALIAS-1 (no shared spare capacity), R-ISO-4 / R-AST-1 (no in-place write to cells or syntax trees that another holder shares)."
 for _p in ["C01","C02","C03","C04","C05","C06","C07","C08","C12","C13","C14","C15","C16","C17","C19","C20"]:
